@@ -38,10 +38,11 @@ INJECTIONS += [
         'kani::ensures(|r: &(&[GenericArray<T, N>], &[T])| N::USIZE != 0 || (r.0.len() == 0 && r.1.len() == 0))',
         'kani::ensures(|r: &(&[GenericArray<T, N>], &[T])| N::USIZE == 0 || ('
         'r.0.len() == slice.len() / N::USIZE && r.1.len() == slice.len() % N::USIZE '
-        '&& r.0.as_ptr() as usize == slice.as_ptr() as usize '
-        '&& r.1.as_ptr() as usize == slice.as_ptr() as usize + (slice.len() / N::USIZE) * N::USIZE * core::mem::size_of::<T>()))']),
+        # the address of an EMPTY part is not observable as "memory covered" (C10 says: together cover the source exactly)
+        '&& (r.0.len() == 0 || r.0.as_ptr() as usize == slice.as_ptr() as usize) '
+        '&& (r.1.len() == 0 || r.1.as_ptr() as usize == slice.as_ptr() as usize + (slice.len() / N::USIZE) * N::USIZE * core::mem::size_of::<T>())))']),
     _c('slice_from_chunks', r'pub const fn slice_from_chunks\(slice: &\[GenericArray<T, N>\]\) -> &\[T\] \{', [
-        'kani::ensures(|r: &&[T]| r.len() == slice.len() * N::USIZE && r.as_ptr() as usize == slice.as_ptr() as usize)']),
+        'kani::ensures(|r: &&[T]| r.len() == slice.len() * N::USIZE && (r.len() == 0 || r.as_ptr() as usize == slice.as_ptr() as usize))']),
 ]
 
 # ---- scope marker: the by-value iterator's own Drop is running (destructor monitor, C05) ----
